@@ -1,2 +1,143 @@
-use crate::Scenario;
-pub fn scenarios() -> Vec<Scenario> { vec![] }
+//! C15: nonces.  Each commitment round draws 32 fresh bytes for the hiding and 32 for the binding
+//! nonce; each nonce is H3(bytes || encoded signing share); commitments are generator * nonce;
+//! the same random stream reproduces, a different stream or share changes every nonce; k
+//! pre-processed pairs consume k independent draws; no nonce is zero, no commitment the identity.
+//! (That signing refuses nonces whose commitments are not the signer's entry is part of C05.)
+
+use frost_core as fc;
+use frost_core::{Ciphersuite, Group};
+use serde_json::json;
+
+use crate::common::*;
+use crate::rng::{FixedRng, TestRng};
+use crate::{scn, Scenario};
+
+pub fn scenarios() -> Vec<Scenario> {
+    vec![scn!(scenario_nonce_derivation), scn!(scenario_preprocess_batch)]
+}
+
+fn nonce_check<C: Suite>(
+    what: &str,
+    nonce: &fc::round1::Nonce<C>,
+    commitment: &fc::round1::NonceCommitment<C>,
+    random: &[u8],
+    share: &fc::keys::SigningShare<C>,
+) -> Verdict {
+    // independent: H3(random_bytes || SerializeScalar(secret))
+    let mut input = random.to_vec();
+    input.extend_from_slice(&share.serialize());
+    let want = <C as Ciphersuite>::H3(&input);
+    check(
+        nonce.serialize() == scalar_bytes::<C>(&want),
+        &format!("{what} nonce equals H3(32 drawn bytes || encoded signing share)"),
+        hex(&scalar_bytes::<C>(&want)),
+        hex(&nonce.serialize()),
+    )?;
+    check(want != zero::<C>(), &format!("{what} nonce is not zero"), "non-zero", "zero")?;
+    let g = base_mul::<C>(&want);
+    check(g != <Gr<C> as Group>::identity(), &format!("{what} commitment is not the identity"), "non-identity", "identity")?;
+    check(
+        commitment.serialize().ok() == Some(elem_bytes::<C>(&g)),
+        &format!("{what} commitment equals generator * nonce"),
+        hex(&elem_bytes::<C>(&g)),
+        format!("{:?}", commitment.serialize().map(|b| hex(&b))),
+    )
+}
+
+pub fn scenario_nonce_derivation<C: Suite>(rng: &mut TestRng, _p: &Params, notes: &mut Notes) -> Verdict {
+    let share = make_signing_share::<C>(&random_nonzero_scalar::<C>(rng))?;
+    // (1) how much is drawn, and in which pieces
+    let mut counting = rng.fork();
+    let before = counting.clone();
+    let (nonces, commitments) = fc::round1::commit::<C, _>(&share, &mut counting);
+    // (one 64-byte request is as good as two 32-byte requests: only the stream positions matter)
+    check(
+        counting.bytes_drawn == 64,
+        "commit() draws 32 bytes for the hiding nonce and 32 further bytes for the binding nonce",
+        "64 bytes",
+        format!("requests {:?} ({} bytes)", counting.fills, counting.bytes_drawn),
+    )?;
+    // (2) the nonces are functions of exactly those bytes (replay them from a fixed source)
+    let stream = before.clone().bytes(64);
+    notes.insert("random_bytes_hex".into(), json!(hex(&stream)));
+    let mut fixed = FixedRng::new(stream.clone());
+    let (n2, c2) = fc::round1::commit::<C, _>(&share, &mut fixed);
+    check(n2 == nonces && c2 == commitments, "commit() with the same random stream is reproducible", "identical nonces and commitments", "different")?;
+    check(fixed.pos == 64, "commit() consumes exactly 64 bytes of the stream", "64", fixed.pos.to_string())?;
+    let (h, b) = stream.split_at(32);
+    nonce_check::<C>("hiding", nonces.hiding(), commitments.hiding(), h, &share)?;
+    nonce_check::<C>("binding", nonces.binding(), commitments.binding(), b, &share)?;
+    check(
+        nonces.commitments() == &commitments,
+        "the commitments stored with the nonces are the published ones",
+        "equal",
+        "different",
+    )?;
+    check(nonces.hiding() != nonces.binding(), "hiding and binding nonce differ", "different", "equal")?;
+    // (3) other bytes, or another share, give other nonces
+    let mut other_stream = stream.clone();
+    let flip = rng.below(64);
+    if let Some(x) = other_stream.get_mut(flip) {
+        *x ^= 1 << rng.below(8);
+    }
+    let (n3, _) = fc::round1::commit::<C, _>(&share, &mut FixedRng::new(other_stream));
+    if flip < 32 {
+        check(n3.hiding() != nonces.hiding(), "a change in the first 32 random bytes changes the hiding nonce", "different", "equal")?;
+        check(n3.binding() == nonces.binding(), "the binding nonce depends only on the second 32 bytes", "equal", "different")?;
+    } else {
+        check(n3.binding() != nonces.binding(), "a change in the second 32 random bytes changes the binding nonce", "different", "equal")?;
+        check(n3.hiding() == nonces.hiding(), "the hiding nonce depends only on the first 32 bytes", "equal", "different")?;
+    }
+    let share2 = make_signing_share::<C>(&(share_scalar::<C>(&share)? + one::<C>()))?;
+    let (n4, _) = fc::round1::commit::<C, _>(&share2, &mut FixedRng::new(stream));
+    check(
+        n4.hiding() != nonces.hiding() && n4.binding() != nonces.binding(),
+        "another signing share gives other nonces from the same random bytes",
+        "different",
+        "equal",
+    )?;
+    // two successive rounds from one source never repeat
+    let mut src = rng.fork();
+    let (a, _) = fc::round1::commit::<C, _>(&share, &mut src);
+    let (b2, _) = fc::round1::commit::<C, _>(&share, &mut src);
+    check(
+        a.hiding() != b2.hiding() && a.binding() != b2.binding() && a.hiding() != b2.binding() && a.binding() != b2.hiding(),
+        "successive commitment rounds use new nonces",
+        "four distinct nonces",
+        "a repeat",
+    )
+}
+
+pub fn scenario_preprocess_batch<C: Suite>(rng: &mut TestRng, _p: &Params, notes: &mut Notes) -> Verdict {
+    let share = make_signing_share::<C>(&random_nonzero_scalar::<C>(rng))?;
+    let k = [0u8, 1, 2, 3, 7, 32, 255][rng.below(7)];
+    notes.insert("num_nonces".into(), json!(k));
+    let mut counting = rng.fork();
+    let before = counting.clone();
+    let (nonces, commitments) = fc::round1::preprocess::<C, _>(k, &share, &mut counting);
+    check(
+        nonces.len() == k as usize && commitments.len() == k as usize,
+        "preprocess(k) returns k nonce pairs and k commitment pairs",
+        k.to_string(),
+        format!("{} / {}", nonces.len(), commitments.len()),
+    )?;
+    check(
+        counting.bytes_drawn == 64 * k as u64,
+        "a batch of k pre-processed commitments consumes k independent pairs of 32-byte draws",
+        format!("{} bytes", 64 * k as usize),
+        format!("{} requests, {} bytes", counting.fills.len(), counting.bytes_drawn),
+    )?;
+    let stream = before.clone().bytes(64 * k as usize);
+    let mut seen = std::collections::BTreeSet::new();
+    for (i, (n, c)) in nonces.iter().zip(commitments.iter()).enumerate() {
+        let chunk = stream.get(64 * i..64 * i + 64).unwrap_or(&[]);
+        let (h, b) = chunk.split_at(32.min(chunk.len()));
+        nonce_check::<C>(&format!("pair {i}: hiding"), n.hiding(), c.hiding(), h, &share)?;
+        nonce_check::<C>(&format!("pair {i}: binding"), n.binding(), c.binding(), b, &share)?;
+        check(n.commitments() == c, "pre-processed commitments are listed in the order of their nonces", "same order", "different")?;
+        for x in [n.hiding().serialize(), n.binding().serialize()] {
+            check(seen.insert(x), "all nonces of a batch are pairwise distinct", "distinct", "a repeat")?;
+        }
+    }
+    Ok(())
+}
